@@ -473,15 +473,24 @@ func (ac *annoCase) binVariants(c *fw.Ctx, res *fw.Result, idx int, start, end i
 		files["ref.fasta"] = ac.refTxt
 	}
 	useStdin := ac.form == "sam" && idx%2 == 0
+	// a GenBank annotation may also be given through the older --genbank flag, which takes the
+	// format from the flag and not from the file's name
+	annoFlag, annoName := "-a", "anno."+ac.format
+	if ac.format == "gb" && fw.Mix(uint64(idx)+606)%3 == 0 {
+		annoFlag = "--genbank"
+		annoName = []string{"anno.gb", "anno.genbank", "anno.gbk", "MN908947.3"}[fw.Mix(uint64(idx)+607)%4]
+		files[annoName] = ac.annoTxt
+		res.Count("binary_runs_with_genbank_flag", 1)
+	}
 	binSample(c, res, idx, "variants-"+ac.form, files, func(p func(string) string) []string {
 		var a []string
 		if ac.form == "fasta" {
-			a = []string{"variants", "--msa", p("msa.fasta"), "-a", p("anno." + ac.format)}
+			a = []string{"variants", "--msa", p("msa.fasta"), annoFlag, p(annoName)}
 			if ac.refID != "" {
 				a = append(a, "-r", ac.refID)
 			}
 		} else {
-			a = []string{"sam", "variants", "-a", p("anno." + ac.format)}
+			a = []string{"sam", "variants", annoFlag, p(annoName)}
 			if !useStdin {
 				a = append(a, "-s", p("in.sam"))
 			}
